@@ -94,7 +94,7 @@ func matrixCases() []*c19Case {
 					}
 					// deferred effects of this chain length become visible here
 					switch spec.Name {
-					case "bulk", "doc_index", "splunk_hec":
+					case "bulk", "doc_index", "doc_create", "splunk_hec", "otlp_logs", "otlp_traces", "loki_push":
 						cs.Steps = append(cs.Steps, step{Op: "flush", Enc: "-"})
 					case "otsdb_put", "prom_write":
 						cs.Steps = append(cs.Steps, step{Op: "mflush", Enc: "-"})
